@@ -131,6 +131,11 @@ def run(run: common.Run):
         s = np.array([[[rng.randint(20, 200) for _ in range(src.w)] for _ in range(src.h)] for _ in range(nb)], float)
         r = np.array([[[rng.randint(30, 150) for _ in range(ref.w)] for _ in range(ref.h)] for _ in range(nb)], float)
         sv, rv = holes(rng, src.h, src.w), holes(rng, ref.h, ref.w)
+        if i % 4 == 1 and src.h >= 12:
+            # a large invalid area (the empty part of a mosaic tile): with small blocks some blocks' read windows lie wholly in it
+            sv[: (2 * src.h) // 3, :] = False
+            case['halvings'] = max(case['halvings'], 3)
+            run.hist['source with an invalid area larger than a block'] += 1
         if dtype == 'float32':
             # a valid pixel within 5e-6 (relative) of the numeric nodata value -9999 of some encodings, but not equal to it, is a
             # valid pixel in every encoding
